@@ -1,7 +1,7 @@
 //! C10 – restarting from persisted state is safe at every crash point.
 use crate::checks::c01::Ct;
 use crate::checks::c09::line_world;
-use crate::oracles::{chan_infos, ChanInfo, CommitmentOracle, PersistOrderOracle, RevocationOracle};
+use crate::oracles::{chan_infos, ChanInfo, CommitmentOracle, PersistOrderOracle, RevocationOracle, TxValidityOracle};
 use crate::runner::{fill_model_checking_evidence, run_scenarios, Scenario};
 use crate::sys::{Deviations, Op, Oracle, WorldSys};
 use crate::world::{ClaimPolicy, Obs, Wire, World};
@@ -164,6 +164,7 @@ pub fn build(s: &C10Scn) -> WorldSys {
 	sys.oracles.push(Box::new(po));
 	sys.oracles.push(Box::new(CommitmentOracle::new(infos)));
 	sys.oracles.push(Box::new(rev));
+	sys.oracles.push(Box::new(TxValidityOracle::new()));
 	sys.w.obs_cursor = sys.w.obs.len();
 	sys
 }
@@ -179,7 +180,7 @@ pub fn scenarios(tier: Tier) -> Vec<C10Scn> {
 		complete_reorder: Some(1),
 		..Deviations::default()
 	};
-	let cts: Vec<Ct> = vec![Ct::Static];
+	let cts: Vec<Ct> = if th { vec![Ct::Static, Ct::Anchors] } else { vec![Ct::Static] };
 	for ct in cts {
 		let n = format!("{:?}", ct);
 		for (pol, pn) in [(ClaimPolicy::Claim, "claim"), (ClaimPolicy::Fail, "fail")] {
